@@ -31,7 +31,7 @@ def _is_pow2(n):
 
 
 class SymFloat:
-    __slots__ = ('n', 'den', 'err', 'cr')
+    __slots__ = ('n', 'den', 'err', 'cr', 'clamp')
     __sx_sym__ = True
 
     def __init__(self, n, den=1, err=Fraction(0), cr=True):
@@ -41,6 +41,7 @@ class SymFloat:
         self.den = den
         self.err = Fraction(err)
         self.cr = cr
+        self.clamp = None     # (lo, hi): the true double lies in [lo, hi) whatever the error term says
 
     # -- helpers ---------------------------------------------------------------
     def bounds(self):
@@ -100,7 +101,9 @@ class SymFloat:
             src = ctx().memo.get(key) if core.active() else None
             if src is not None and src[0] is self:
                 rem = src[1] if src[1] is not None else self.n - o * self.den
-                return SymFloat(rem, self.den, self.err, self.err == 0)
+                res = SymFloat(rem, self.den, self.err, self.err == 0)
+                res.clamp = (Fraction(0), Fraction(1))
+                return res
         o = as_float(o)
         if o is None:
             return NotImplemented
@@ -141,7 +144,11 @@ class SymFloat:
         if p == 0:
             return SymFloat(0, 1)
         in_err = a.err * abs(Fraction(p, q)) + b.err * a.mag()
-        return self._round_result(a.n * p, a.den * q, in_err, a.err == 0 and b.err == 0)
+        res = self._round_result(a.n * p, a.den * q, in_err, a.err == 0 and b.err == 0)
+        if a.clamp is not None and b.err == 0 and q == 1 and p > 0 and _is_pow2(p) and p < 2 ** 900:
+            # scaling by a power of two is exact, so the range fact scales with it
+            res.clamp = (a.clamp[0] * p, a.clamp[1] * p)
+        return res
 
     __rmul__ = __mul__
 
@@ -234,7 +241,13 @@ class SymFloat:
                           z3.Implies(adj == 1, rt >= self.den - band)))
         cx.env['float_uncertain'] = cx.env.get('float_uncertain', 0) + 1
         qlo, qhi = bounds_of(q)
-        return mk_int(term_of(q) + adj, qlo - 1, qhi + 1)
+        qlo, qhi = qlo - 1, qhi + 1
+        if self.clamp is not None:
+            import math
+            clo, chi = math.floor(self.clamp[0]), math.ceil(self.clamp[1]) - 1
+            cx._assert(z3.And(term_of(q) + adj >= clo, term_of(q) + adj <= chi))
+            qlo, qhi = max(qlo, clo), min(qhi, chi)
+        return mk_int(term_of(q) + adj, qlo, qhi)
 
     def __floor__(self):
         q = self._floor()
@@ -252,7 +265,7 @@ class SymFloat:
 
     def __trunc__(self):
         lo, hi = self.bounds()
-        if lo >= 0:
+        if lo >= 0 or (self.clamp is not None and self.clamp[0] >= 0):
             return self.__floor__()
         if hi <= 0:
             return -((-self)._floor())
